@@ -24,21 +24,21 @@ def compare_cell(res, rec, gi, tol, k_in):
     if not raw.get("feasible", True):
         res.violation("corr:model-early-stop", f"exact model: a vertex of cell {gi} violates the bisector of some site (early termination unsound?)", ctx, no_input=True)
     if iv is None or iv["vor"] is None:
-        res.violation("C01:missing-cell", f"constructed cell {gi} missing in the implementation's output", ctx)
+        res.violation("C01:missing-cell" + geo.mismatch_class(rec), f"constructed cell {gi} missing in the implementation's output", ctx)
         return
     vol_i, vol_m = iv["vor"]["volume"], float(m["volume"])
     if not (abs(vol_i - vol_m) <= tol["vol_tol"]):
-        res.violation("C01:volume", f"cell {gi} volume {vol_i} differs from the exact nearest-generator region's {vol_m} "
+        res.violation("C01:volume" + geo.mismatch_class(rec), f"cell {gi} volume {vol_i} differs from the exact nearest-generator region's {vol_m} "
                       f"(tolerance {tol['vol_tol']:.3g}); input family {fam} dim {inp['dim']} periodic {inp['periodic']}",
                       dict(ctx, impl=vol_i, exact=vol_m))
     if m["centroid"][0] is not None and vol_m > 10 * tol["vol_tol"]:
         for k in range(inp["dim"]):
             ce = float(m["centroid"][k])
             if not (abs(iv["vor"]["centroid"][k] - ce) <= max(100 * tol["eps"][k], 10 * tol["rel"] * tol["L"][k]) * max(1.0, tol["vol"] / vol_m * 1e-3)):
-                res.violation("C01:centroid", f"cell {gi} centroid[{k}] {iv['vor']['centroid'][k]} vs exact {ce}", dict(ctx, impl=iv["vor"]["centroid"], exact=[float(x) for x in m["centroid"]]))
+                res.violation("C01:centroid" + geo.mismatch_class(rec), f"cell {gi} centroid[{k}] {iv['vor']['centroid'][k]} vs exact {ce}", dict(ctx, impl=iv["vor"]["centroid"], exact=[float(x) for x in m["centroid"]]))
                 break
     if not iv["faces_mapped"]:
-        res.violation("C01:face-list-shape", f"cell {gi}: {iv['n_face_integrals']} face integrals but {len(iv['face_planes'])} planes carry vertices", ctx)
+        res.violation("C01:face-list-shape" + geo.mismatch_class(rec), f"cell {gi}: {iv['n_face_integrals']} face integrals but {len(iv['face_planes'])} planes carry vertices", ctx)
         return
     # faces: none missing, none spurious (above the property's threshold), same area / centroid
     on_wall = geo.walls_of_generator(rec, gi)
@@ -52,19 +52,19 @@ def compare_cell(res, rec, gi, tol, k_in):
         if f["area"] > tol["area_min"] + tol["area_tol"]:
             g = iv["faces"].get(key)
             if g is None:
-                res.violation("C01:missing-neighbour", f"cell {gi}: face towards {key} of area {f['area']:.6g} is missing "
+                res.violation("C01:missing-neighbour" + geo.mismatch_class(rec), f"cell {gi}: face towards {key} of area {f['area']:.6g} is missing "
                               f"(family {fam} dim {inp['dim']} periodic {inp['periodic']})", dict(ctx, face=str(key), exact_area=f["area"]))
             elif not (abs(g["area"] - f["area"]) <= tol["area_tol"]):
-                res.violation("C01:face-area", f"cell {gi}: face {key} area {g['area']} vs exact {f['area']}", dict(ctx, face=str(key), impl=g["area"], exact=f["area"]))
+                res.violation("C01:face-area" + geo.mismatch_class(rec), f"cell {gi}: face {key} area {g['area']} vs exact {f['area']}", dict(ctx, face=str(key), impl=g["area"], exact=f["area"]))
             elif f["area"] > 1e3 * tol["area_min"]:
                 for k in range(inp["dim"]):
                     ctol = max(100 * tol["eps"][k], 10 * tol["rel"] * tol["L"][k]) * max(1.0, 1e-3 * tol["face_scale"] / f["area"])
                     if f["centroid"][k] is not None and not (abs(g["centroid"][k] - f["centroid"][k]) <= ctol):
-                        res.violation("C01:face-centroid", f"cell {gi}: face {key} centroid {g['centroid']} vs exact {f['centroid']}", dict(ctx, face=str(key)))
+                        res.violation("C01:face-centroid" + geo.mismatch_class(rec), f"cell {gi}: face {key} centroid {g['centroid']} vs exact {f['centroid']}", dict(ctx, face=str(key)))
                         break
     for key, g in iv["faces"].items():
         if g["area"] > tol["area_min"] + tol["area_tol"] and key not in mv["faces"]:
-            res.violation("C01:spurious-neighbour", f"cell {gi}: reports a face towards {key} of area {g['area']:.6g} that the exact cell does not have",
+            res.violation("C01:spurious-neighbour" + geo.mismatch_class(rec), f"cell {gi}: reports a face towards {key} of area {g['area']:.6g} that the exact cell does not have",
                           dict(ctx, face=str(key), impl_area=g["area"]))
     # vertices: every implementation vertex inside the exact cell (all exact planes) up to eps
     s = 2.0 ** (-rec["e"])
@@ -77,7 +77,16 @@ def compare_cell(res, rec, gi, tol, k_in):
             # value in scaled units; distance = val / |n| * s
             dist = val / nn * s
             if dist < -1e-6 * lmax:
-                res.violation("C01:vertex-outside", f"cell {gi}: vertex {v['loc']} lies {-dist:.3g} outside the exact cell (plane towards {pl['right']})", dict(ctx, vertex=v["loc"]))
+                # a vertex whose three planes have (nearly) linearly dependent normals has no well defined location:
+                # recorded finding K5 (exactly degenerate configurations)
+                ns = [iv["planes"][i]["n"] for i in v["dual"]]
+                nl = [math.sqrt(sum(x * x for x in n_)) or 1.0 for n_ in ns]
+                det = (ns[0][0] * (ns[1][1] * ns[2][2] - ns[1][2] * ns[2][1]) - ns[0][1] * (ns[1][0] * ns[2][2] - ns[1][2] * ns[2][0])
+                       + ns[0][2] * (ns[1][0] * ns[2][1] - ns[1][1] * ns[2][0])) / (nl[0] * nl[1] * nl[2])
+                if abs(det) < 1e-9:
+                    res.violation("vertex-with-dependent-planes:K5", f"cell {gi}: vertex with dual {v['dual']} has linearly dependent plane normals (det {det:.3g}); its location {v['loc']} is meaningless", dict(ctx, vertex=v["loc"]))
+                else:
+                    res.violation("C01:vertex-outside" + geo.mismatch_class(rec), f"cell {gi}: vertex {v['loc']} lies {-dist:.3g} outside the exact cell (plane towards {pl['right']})", dict(ctx, vertex=v["loc"]))
                 break
     res.nontriv((k_in, gi))
 
